@@ -56,7 +56,7 @@ def change_one(rng, args, info):
 
 
 def generate(rng, tier):
-    n = 2000 if tier == "quick" else 40000
+    n = 6000 if tier == "quick" else 60000
     cases = []
     for i in range(n):
         md = MODES[i % 4]
